@@ -584,3 +584,67 @@ def r5(R):
               'a storage transaction')
     for v in vs:
         R.violation(v.node, v.message, g, v.path)
+
+
+# ----------------------------------------------------------------- C05.R6
+@rule('C05.R6', 'the MVCC adapter changes its own bookkeeping for a 2PC '
+      'call only after the storage has accepted that call (the storage '
+      'checks the transaction; a call with another transaction is rejected '
+      'without effect)', min_instances=4)
+def r6(R):
+    n = 0
+    for q in ('ZODB.mvccadapter.MVCCAdapterInstance',
+              'ZODB.mvccadapter.UndoAdapterInstance'):
+        cls = R.prog.cls(q)
+        for meth in ('store', 'storeBlob', 'deleteObject', 'restore',
+                     'restoreBlob', 'undo', 'tpc_vote', 'tpc_finish',
+                     'checkCurrentSerialInTransaction'):
+            f = cls.methods.get(meth)
+            if f is None:
+                continue
+            g, b, F = R.cfg(f, cls, max_depth=0)
+            n += 1
+            R.instance('%s.%s' % (cls.name, meth))
+
+            def edge(node, st, lab, tgt, F=F, meth=meth):
+                if lab in ('e', 'eb'):
+                    return st
+                for op in F.ops(node):
+                    if op.kind == 'call' and op.path and len(
+                            op.path) == 3 and op.path[:2] == (
+                                'self', '_storage'):
+                        return 'accepted'
+                return st
+
+            def at(node, st, F=F, meth=meth, cls=cls):
+                if st == 'accepted' or node.frame.parent is not None:
+                    return st
+                for op in F.ops(node):
+                    if op.kind in ('store', 'aug', 'setitem', 'del',
+                                   'delitem') and op.path and \
+                            op.path[0] == 'self':
+                        return Violation(
+                            '%s.%s changes `%s` before the storage has '
+                            'accepted the call: when the call is made with '
+                            'a transaction other than the one being '
+                            'committed the storage rejects it, but the '
+                            'adapter\'s state is already changed and the '
+                            'transaction in progress then fails' % (
+                                cls.name, meth,
+                                '.'.join(str(x) for x in op.path)))
+                    if op.kind == 'call' and op.path and op.path[0] == \
+                            'self' and len(op.path) == 3 and op.path[1] in (
+                                '_modified', '_undone') and op.path[2] in (
+                                    'add', 'update', 'clear', 'discard',
+                                    'remove'):
+                        return Violation(
+                            '%s.%s mutates `%s` before the storage has '
+                            'accepted the call' % (
+                                cls.name, meth, '.'.join(op.path[:2])))
+                return st
+
+            vs, stats = explore(g, 'start', at=at, edge=edge)
+            R.count(stats)
+            for v in vs:
+                R.violation(v.node, v.message, g, v.path)
+    R.require(n >= 4, 'adapter 2PC methods not found')
